@@ -252,4 +252,192 @@ theorem removeBlock_no_in_edge {ir ir' : IR} {b : Nat} {px : Bool} {blk : Block}
         exact this
     · injection h with h; injection h with h1 h2; cases h2
 
+/-! ### … and none that starts at it, for a block that does not both call and return -/
+
+/-- no return edge leaves block `b` -/
+def NoRet (cfg : List Edge) (b : Nat) : Prop := ∀ e ∈ cfg, e.src = .block b → Edge.isRet e = false
+
+theorem mem_returnEdgesOf (ir : IR) (b : Nat) (e : Edge) :
+    e ∈ ir.returnEdgesOf b ↔ e ∈ ir.cfg ∧ Edge.isRet e = true ∧ e.src = .block b := by
+  unfold IR.returnEdgesOf; simp [List.mem_filter]
+
+/-- `remove_return_edges_from_callee` gives a block that has no return edge no new out-edge -/
+theorem removeReturnEdgesFromCallee_src (ir : IR) (ce : Edge) (ft : List Nat) (b : Nat) (hnr : NoRet ir.cfg b) :
+    ∀ e ∈ (ir.removeReturnEdgesFromCallee ce ft).cfg, e.src = .block b → e ∈ ir.cfg := by
+  unfold IR.removeReturnEdgesFromCallee
+  split
+  · exact fun e he _ => he
+  · split
+    · exact fun e he _ => he
+    · -- the fold over the callee's blocks keeps: every out-edge of `b` is an old one
+      have key : ∀ (l : List Nat) (x : IR), (∀ e ∈ x.cfg, e.src = .block b → e ∈ ir.cfg) →
+          ∀ e ∈ (l.foldl (fun ir fb =>
+            let rets := ir.returnEdgesOf fb
+            if rets.isEmpty then ir
+            else
+              let (ir', remaining) := rets.foldl (fun (acc : IR × Bool) e =>
+                match e.dst with
+                | .block t => if ft.contains t then ({ acc.1 with cfg := cfgDiscard acc.1.cfg e }, acc.2)
+                              else (acc.1, true)
+                | .proxy _ => (acc.1, true)) (ir, false)
+              if remaining then ir'
+              else
+                let p := ir'.next
+                { ir' with next := p + 1, proxies := ir'.proxies ++ [p],
+                           cfg := cfgAdd ir'.cfg { src := .block fb, dst := .proxy p, label := retLabel } }) x).cfg,
+            e.src = .block b → e ∈ ir.cfg := by
+        intro l
+        induction l with
+        | nil => intro x hx; exact hx
+        | cons fb l ih =>
+          intro x hx
+          simp only [List.foldl_cons]
+          apply ih
+          split
+          · exact hx
+          · rename_i hne
+            have hfold : ∀ (rets : List Edge) (acc : IR × Bool), (∀ e ∈ acc.1.cfg, e.src = .block b → e ∈ ir.cfg) →
+                ∀ e ∈ (rets.foldl (fun (acc : IR × Bool) e =>
+                  match e.dst with
+                  | .block t => if ft.contains t then ({ acc.1 with cfg := cfgDiscard acc.1.cfg e }, acc.2)
+                                else (acc.1, true)
+                  | .proxy _ => (acc.1, true)) acc).1.cfg, e.src = .block b → e ∈ ir.cfg := by
+              intro rets acc hacc
+              apply foldl_pair_edges (fun e => e.src = .block b → e ∈ ir.cfg) _ _ _ _ hacc
+              intro acc e hacc' e' he'
+              split at he'
+              · split at he'
+                · exact hacc' e' ((mem_cfgDiscard _ _ _).mp he').1
+                · exact hacc' e' he'
+              · exact hacc' e' he'
+            split
+            · exact hfold _ _ hx
+            · intro e he hs
+              rcases (mem_cfgAdd _ _ _).mp he with he | he
+              · exact hfold _ _ hx e he hs
+              · -- the new edge leaves a block that has return edges: not `b`
+                exfalso
+                rw [he] at hs
+                simp only [CfgNode.block.injEq] at hs
+                subst hs
+                have : x.returnEdgesOf fb ≠ [] := by
+                  intro hh; apply hne; rw [hh]; rfl
+                obtain ⟨e0, he0⟩ := List.exists_mem_of_ne_nil _ this
+                obtain ⟨h1, h2, h3⟩ := (mem_returnEdgesOf x fb e0).mp he0
+                have := hnr e0 (hx e0 h1 h3) h3
+                rw [this] at h2; cases h2
+      exact key _ ir (fun e he _ => he)
+
+/-- **after `_remove_outgoing_edges` no edge starts at the block**, when no return edge left it -/
+theorem removeOutEdges_no_out_edge (ir : IR) (blk : Block) (hcode : blk.isCode = true) (hnr : NoRet ir.cfg blk.id) :
+    ∀ e ∈ (ir.removeOutEdges blk).cfg, e.src ≠ .block blk.id := by
+  unfold IR.removeOutEdges
+  rw [hcode]
+  simp only [Bool.not_true, Bool.false_eq_true, if_false]
+  have key : ∀ (ft : List Nat) (l : List Edge) (x : IR), (∀ e ∈ x.cfg, e.src = .block blk.id → e ∈ l ∧ e ∈ ir.cfg) →
+      ∀ e ∈ (l.foldl (fun ir e =>
+        let i := if Edge.isCall e then ir.removeReturnEdgesFromCallee e ft else ir
+        { i with cfg := cfgDiscard i.cfg e }) x).cfg, e.src ≠ .block blk.id := by
+    intro ft l
+    induction l with
+    | nil => intro x hx e he hs; exact absurd (hx e he hs).1 (by simp)
+    | cons a l ih =>
+      intro x hx
+      simp only [List.foldl_cons]
+      apply ih
+      intro e he hs
+      have he' := (mem_cfgDiscard _ _ _).mp he
+      have hex : e ∈ x.cfg := by
+        split at he'
+        · have hnrx : NoRet x.cfg blk.id := fun e0 h0 hs0 => hnr e0 (hx e0 h0 hs0).2 hs0
+          exact removeReturnEdgesFromCallee_src x a _ blk.id hnrx e he'.1 hs
+        · exact he'.1
+      obtain ⟨h1, h2⟩ := hx e hex hs
+      refine ⟨?_, h2⟩
+      rcases List.mem_cons.mp h1 with h1 | h1
+      · exact absurd h1 he'.2
+      · exact h1
+  apply key (ir.fallTargets blk.id)
+  intro e he hs
+  exact ⟨(mem_outEdges ir blk.id e).mpr ⟨he, hs⟩, he⟩
+
+/-- `_retarget_incoming_edges` changes targets only: every edge afterwards is an old edge or an old
+edge with another target -/
+theorem removeInEdges_edges (ir : IR) (blk : Block) (proxy next : Option Nat) (nc : Bool) :
+    ∀ e' ∈ (ir.removeInEdges blk proxy next nc).cfg, e' ∈ ir.cfg ∨ ∃ e ∈ ir.cfg, ∃ t, e' = updDst e t := by
+  unfold IR.removeInEdges
+  split
+  · exact fun e' h => Or.inl h
+  · have hmove : ∀ (x : IR) (t : CfgNode) (l : List Edge), (∀ e ∈ l, e ∈ x.cfg) →
+        ∀ e' ∈ (l.foldl (fun i e => i.updateEdge e (updDst e t)) x).cfg, e' ∈ x.cfg ∨ ∃ e ∈ x.cfg, ∃ t, e' = updDst e t := by
+      intro x t l
+      induction l generalizing x with
+      | nil => intro _ e' h; exact Or.inl h
+      | cons a l ih =>
+        intro hl e' he'
+        simp only [List.foldl_cons] at he'
+        -- one step: an edge of `x.updateEdge a (updDst a t)` is an edge of `x` or the retargeted `a`
+        have hstep : ∀ e ∈ (x.updateEdge a (updDst a t)).cfg, e ∈ x.cfg ∨ e = updDst a t := by
+          intro e he
+          rcases (mem_cfgAdd _ _ _).mp he with h | h
+          · exact Or.inl ((mem_cfgDiscard _ _ _).mp h).1
+          · exact Or.inr h
+        have hl' : ∀ e ∈ l, e ∈ (x.updateEdge a (updDst a t)).cfg ∨ e ∈ x.cfg := fun e he => Or.inr (hl e (List.mem_cons_of_mem _ he))
+        -- generalise the induction a little: the snapshot stays a list of old edges
+        have gen : ∀ (l : List Edge) (y : IR), (∀ e ∈ y.cfg, e ∈ x.cfg ∨ ∃ e0 ∈ x.cfg, ∃ t, e = updDst e0 t) →
+            (∀ e ∈ l, e ∈ x.cfg) →
+            ∀ e' ∈ (l.foldl (fun i e => i.updateEdge e (updDst e t)) y).cfg, e' ∈ x.cfg ∨ ∃ e0 ∈ x.cfg, ∃ t, e' = updDst e0 t := by
+          intro l
+          induction l with
+          | nil => intro y hy _ e' h; exact hy e' h
+          | cons c l ih2 =>
+            intro y hy hlc e' he'
+            simp only [List.foldl_cons] at he'
+            apply ih2 _ _ (fun e he => hlc e (List.mem_cons_of_mem _ he)) e' he'
+            intro e he
+            rcases (mem_cfgAdd _ _ _).mp he with h | h
+            · exact hy e ((mem_cfgDiscard _ _ _).mp h).1
+            · exact Or.inr ⟨c, hlc c List.mem_cons_self, t, h⟩
+        apply gen l _ _ (fun e he => hl e (List.mem_cons_of_mem _ he)) e' he'
+        intro e he
+        rcases hstep e he with h | h
+        · exact Or.inl h
+        · exact Or.inr ⟨a, hl a List.mem_cons_self, t, h⟩
+    split
+    · exact hmove ir _ _ (fun e he => ((mem_inEdges ir blk.id e).mp he).1)
+    · split
+      · exact hmove ir _ _ (fun e he => ((mem_inEdges ir blk.id e).mp he).1)
+      · simp only []
+        exact hmove { ir with next := ir.next + 1, proxies := ir.proxies ++ [ir.next] } _ _
+          (fun e he => ((mem_inEdges _ blk.id e).mp he).1)
+
+/-- **`remove_block`, block removed: no edge starts at it any more**, for a code block that no return
+edge leaves (a block that both calls and returns for the callee's function is the one case in which
+the code, like the model, adds a return edge behind its own back) -/
+theorem removeBlock_no_out_edge {ir ir' : IR} {b : Nat} {px : Bool} {blk : Block}
+    (h : ir.removeBlock b px = .ok (ir', true)) (hb : ir.block? b = some blk) (hcode : blk.isCode = true)
+    (hnr : NoRet ir.cfg b) : ∀ e ∈ ir'.cfg, e.src ≠ .block b := by
+  have hid : blk.id = b := findB_id hb
+  unfold IR.removeBlock at h
+  rw [hb] at h
+  simp only [] at h
+  split at h
+  · cases h
+  · split at h
+    · rename_i hcan
+      injection h with h; injection h with h1 h2; subst h1
+      show ∀ e ∈ (IR.removeStages _ _ _ _ _ _ _).cfg, _
+      unfold IR.removeStages
+      rw [hcan]
+      simp only [if_true]
+      show ∀ e ∈ (IR.removeOutEdges _ blk).cfg, _
+      rw [← hid]
+      apply removeOutEdges_no_out_edge _ blk hcode
+      intro e he hs
+      rw [removeEntrypoints_cfg, removeFunctions_cfg] at he
+      rcases removeInEdges_edges _ blk _ _ _ e he with h0 | ⟨e0, h0, t, rfl⟩
+      · exact hnr e (by rw [← withProxy_cfg ir px]; exact h0) (by rw [← hid]; exact hs)
+      · exact hnr e0 (by rw [← withProxy_cfg ir px]; exact h0) (by rw [← hid]; exact hs)
+    · injection h with h; injection h with h1 h2; cases h2
+
 end GtirbVerif.IR
